@@ -16,7 +16,7 @@ Record sobj := {
   o_promote : bool;           (* .ts name with Touchstone 1 set: may promote to version 2 *)
   o_format : list entry }.    (* vdi_format_vector; PUNDEF = "ri"/"ma"/"dB" without a type *)
 
-(* validate_type of vnadata_alloc.c: what vnadata_init / resize admit *)
+(* validate_type of vnadata_alloc.c: what vnadata_init / resize accept *)
 Definition wf_dims (t : ptype) (rows ports : nat) : bool :=
   match t with
   | PUNDEF => true
